@@ -159,8 +159,8 @@ type Result struct {
 const (
 	ClassOK         = "ok"
 	ClassError      = "error"      // exit 1 and other deliberate failures
-	ClassDiagnostic = "diagnostic" // zerolog Panic(): exit 2, "panic:" without runtime error
-	ClassFault      = "fault"      // runtime error, fatal error, signal
+	ClassDiagnostic = "diagnostic" // zerolog Panic(): exit 2, "panic:" raised from zerolog's frames
+	ClassFault      = "fault"      // runtime error, fatal error, signal, a panic not raised through zerolog
 	ClassTimeout    = "timeout"
 )
 
@@ -182,7 +182,12 @@ func (r *Result) Class() string {
 		return ClassFault
 	}
 	if r.Exit == 2 && strings.Contains(se, "panic:") {
-		return ClassDiagnostic
+		// a deliberate diagnostic is raised through zerolog's Panic(), whose frames show in the trace; any other
+		// panic (strings.Repeat with a negative count, regexp.MustCompile, an explicit panic in a library) is a fault
+		if strings.Contains(se, "rs/zerolog") {
+			return ClassDiagnostic
+		}
+		return ClassFault
 	}
 	return ClassError
 }
